@@ -66,6 +66,9 @@ func c02Setup(g *protocoltypes.Group, s, r *vDev, n int) *c02Sender {
 	take(0)
 	for i := 1; i <= n; i++ {
 		p := []byte(fmt.Sprintf("%s-message-%d", s.name, i))
+		if i%3 == 2 {
+			p = []byte{} // the rule is about counters: a message without content takes its slot like any other
+		}
 		snd.envs = append(snd.envs, vSeal(s, g, p))
 		snd.payloads = append(snd.payloads, p)
 		take(uint64(i))
